@@ -203,7 +203,27 @@ Theorem C07_swap_inverts : forall (ustar : seq 'cV[F]_nu) (vstar : 'cV[F]_(nv_of
   [/\ [seq outu x | x <- l] = ustar, ovs l = vsstar & [seq oxi x | x <- l] = xistar].
 Proof. exact: run_inverts_swap. Qed.
 
+(* what all_unit asks of the first simulated column: the exogenized rows of R Sigma_v R' + P Sigma_u P' form an
+   invertible matrix (R = _generate_R(0); Sigma_v, Sigma_u = variances of the endogenized anticipated / unanticipated
+   shocks): some endogenized shock must move every exogenized variable of that column *)
+Theorem C07_first_column_F : forall (c : ccol M nu nw curr),
+  let Zs := mc_sel (c_mask c) (Z_xi M n curr) in
+  f_F (@kf_step M (n + nv_of inc) nw (@aug_init_med M n inc a0) (@aug_init_mse M n inc std_v)
+                (@aug_period M n nu nw curr s Rx vs inc 0 c))
+  = Zs *m (@gen_R M n nu Rx 0 0 inc *m cov_from_std M (nv_of inc) std_v *m (@gen_R M n nu Rx 0 0 inc)^T
+           + cs_P s *m cov_from_std M nu (c_std_u c) *m (cs_P s)^T) *m Zs^T.
+Proof. exact: first_F. Qed.
+
 End C07.
+
+(* non-vacuity: x_t = rho x_{t-1} + e_t over any real field, one simulated period in which x is exogenized (any
+   target tau) and e endogenized: every hypothesis of 3a-3d holds (sizes, invertible F, non-singular impact map) *)
+Example C07_hypotheses_satisfiable (F : realFieldType) (flog : F -> F) (flog2pi rho tau : F) :
+  let cols := [:: ex_col flog flog2pi tau] in
+  [/\ size (ex_vs F) = size ex_inc, size cols = size ex_inc,
+      all_unit (run_fs (ex_s flog flog2pi rho) (ex_Rx F) (ex_vs F) ex_inc 0 [::] cols) &
+      impact_nonsingular (ex_s flog flog2pi rho) (ex_Rx F) ex_inc cols].
+Proof. exact: ex_hypotheses. Qed.
 
 Print Assumptions C07_exogenized_hit.
 Print Assumptions C07_stored_value_is_transition_entry.
@@ -211,3 +231,4 @@ Print Assumptions C07_only_endogenized_change.
 Print Assumptions C07_still_a_simulation.
 Print Assumptions C07_generate_R_is_anticipated_impact.
 Print Assumptions C07_swap_inverts.
+Print Assumptions C07_first_column_F.
